@@ -14,6 +14,7 @@ def main():
     ap.add_argument('--write-baseline', action='store_true')
     a = ap.parse_args()
     seed = int(os.environ.get('VERIF_SEED', '0') or 0)
+    os.environ['VERIF_TIER_ACTIVE'] = a.tier
     from pyvc import runner
     from contracts import build_registry
     from contracts.properties import SPECS
